@@ -1091,9 +1091,16 @@ class Engine:
         limit = self.budget.get("concretize", 64)
         while True:
             cond = z3.And(*extra) if extra else z3.BoolVal(True)
-            r = self.feasible(st, cond, timeout_ms=10000, focus=[e], need_model=True)
+            r = self.feasible(st, cond, timeout_ms=self.budget.get("enum_ms", 4000), focus=[e], need_model=True)
             if r is None:
-                raise Inconclusive("cannot enumerate values of symbolic %s" % cz.what)
+                if not vals:
+                    raise Inconclusive("cannot enumerate values of symbolic %s" % cz.what)
+                # completeness of the enumeration not established: continue with the values found, and say so
+                self.stats["incomplete"] += 1
+                self.notes.append("enumeration of %s not proven complete after values %s" % (cz.what, sorted(vals)))
+                self.path_results.append((self.cur_entry, "inconclusive",
+                                          "enumeration of %s not proven complete after values %s" % (cz.what, sorted(vals))))
+                break
             if r is False:
                 break
             m = self._last_model
